@@ -296,6 +296,88 @@ def connect_failure_case(ctx, workdir: str, name: str, file_state: str) -> None:
                       case)
 
 
+def cancelled_exit_case(ctx, workdir: str, transport_kind: str, k: int, how: str, file_state: str) -> None:
+    """The task running `async with Gateway` is cancelled (task.cancel() / asyncio.timeout) while inside the body:
+    the context is left through CancelledError / TimeoutError - an exception like any other: transport disconnected,
+    final registry on disk, no task left, and the cancellation propagates."""
+    from aiomysensors.gateway import Config, Gateway
+    from aiomysensors.model.node import Node
+
+    path = os.path.join(workdir, "cx.json")
+    prepare_file(path, file_state)
+    case = {"engine": "vloop", "cancelled_exit": how, "transport": transport_kind, "k": k, "file": file_state}
+
+    async def scenario() -> dict:
+        transport = make_transport(transport_kind, {"mode": "normal"})
+        gateway = Gateway(transport, Config(persistence_file=path))
+        state: dict = {"entered": False}
+        before = set(asyncio.all_tasks())
+
+        async def session() -> None:
+            async with gateway:
+                state["entered"] = True
+                gateway.nodes[30] = Node(30, 17, "2.0", sketch_name="before cancel")
+                for _ in range(k):
+                    await asyncio.sleep(0)
+                state["final"] = typed(snap(gateway.nodes))
+                await asyncio.sleep(10_000)  # parked in the body until cancelled / timed out
+
+        observed = None
+        if how == "cancel":
+            task = asyncio.ensure_future(session())
+            for _ in range(k + 6):
+                await asyncio.sleep(0)
+            task.cancel()
+            try:
+                await task
+            except BaseException as exc:  # noqa: BLE001
+                observed = exc
+        else:
+            try:
+                async with asyncio.timeout(5):
+                    await session()
+            except BaseException as exc:  # noqa: BLE001
+                observed = exc
+        await asyncio.sleep(0)
+        left = [repr(t)[:160] for t in asyncio.all_tasks() if t not in before and t is not asyncio.current_task()
+                and not t.done()]
+        out = {"observed": observed, "leftovers": left, "state": state, "transport": transport}
+        for t in [t for t in asyncio.all_tasks() if t is not asyncio.current_task()]:
+            t.cancel()
+        return out
+
+    with install() as seam:
+        if transport_kind == "mqtt-fake" and not seam:
+            return
+        result, _loop = run_virtual(scenario)
+        exited = FakeClient.instances[-1].exited if (transport_kind == "mqtt-fake" and FakeClient.instances) else None
+    ctx.case(("cancelled-exit", transport_kind, k, how, file_state), sample=case)
+    ctx.clause("exit-through-cancellation")
+    if isinstance(result, LogicalDeadlock):
+        ctx.violation("context-deadlock", f"logical deadlock in {case}", case)
+        return
+    state = result["state"]
+    if not state.get("entered") or "final" not in state:
+        ctx.obs("cancelled-before-body-finished-setup")
+        return
+    want = asyncio.CancelledError if how == "cancel" else TimeoutError
+    if not isinstance(result["observed"], want):
+        ctx.violation("cancellation-not-propagated", f"{how}: the session ended with {type(result['observed']).__name__}", case)
+    if result["leftovers"]:
+        ctx.violation("task-left-after-exit", f"{how} exit (k={k}): tasks left {result['leftovers']}", case)
+    transport = result["transport"]
+    if isinstance(transport, ScriptedTransport) and transport.disconnected < 1:
+        ctx.violation("disconnect-not-called", f"{how} exit (k={k}): transport.disconnect was not called", case)
+    if exited is not None and exited < 1:
+        ctx.violation("disconnect-not-called", f"{how} exit (k={k}): the MQTT client context was not exited", case)
+    status, disk = registry_on_disk(path)
+    if status != "ok" or disk != state["final"]:
+        diff = first_difference(state["final"], disk) if status == "ok" else disk
+        ctx.violation("no-final-save-on-cancelled-exit",
+                      f"the session task was cancelled ({how}, k={k}, file {file_state}, transport {transport_kind}): after the "
+                      f"context was left the file does not hold the final registry ({diff})", case)
+
+
 def builtin_connect_failure_case(ctx, workdir: str, name: str) -> None:
     """A built-in transport whose connect fails: the context must raise exactly what transport.connect() raises
     (same class), leave no task behind - also when the failure is not a TransportError."""
@@ -649,6 +731,8 @@ def run_case(ctx, case: dict) -> None:
     try:
         if "connect_error" in case:
             connect_failure_case(ctx, workdir, case["connect_error"], case["file"])
+        elif "cancelled_exit" in case:
+            cancelled_exit_case(ctx, workdir, case["transport"], case["k"], case["cancelled_exit"], case["file"])
         elif "builtin_connect_failure" in case:
             builtin_connect_failure_case(ctx, workdir, case["builtin_connect_failure"])
         elif case.get("second_session"):
@@ -689,6 +773,12 @@ def run(ctx) -> None:
                 for file_state in ("missing", "present"):
                     if ctx.mine():
                         connect_failure_case(ctx, workdir, name, file_state)
+            for transport in ("scripted", "mqtt-fake"):
+                for how in ("cancel", "timeout"):
+                    for k in (0, 1, 2, 3, 5, 8, 13, 30):
+                        for file_state in ("missing", "present"):
+                            if ctx.mine():
+                                cancelled_exit_case(ctx, workdir, transport, k, how, file_state)
             for name in ("mqtt-broker-refuses", "mqtt-subscribe-fails"):
                 if ctx.mine():
                     builtin_connect_failure_case(ctx, workdir, name)
